@@ -44,6 +44,8 @@ type Scenario struct {
 	UnboundedThoroughOnly bool
 	// QuickMaxBound caps the bound in the quick tier only
 	QuickMaxBound int
+	// ReleasePoints: Unlock/RUnlock are scheduling points too (see vrt.Config)
+	ReleasePoints bool
 	// Tags select scenarios per tier ("quick" scenarios run in both tiers)
 	ThoroughOnly bool
 }
@@ -163,6 +165,7 @@ func runOnce(sc *Scenario, prefix []int, visit func(e *vrt.Exec, key uint64, cos
 	if sc.Delay {
 		cfg.BlockSwitchCost, cfg.SelectCost = 1, 1
 	}
+	cfg.ReleasePoints = sc.ReleasePoints
 	return vrt.Run(cfg, sc.Run)
 }
 
